@@ -33,7 +33,7 @@ C07 line-protocol driver (fields separated by one space; byte strings hex, `-` =
         fault         n: none; t | w<k>: request A's listing is rendered but not delivered (failing template /
                       client connection fails after k bytes); then B is served by another instance
         → B's serve answer (Props.browse_history_independent)
-  matchfile <cwd> <root> <tries> <fallback> <path> <tree>
+  matchfile <cwd> <root> <tries> <policy> <path> <tree> [<split_path>]
         tries         `.` | pre:use:suf;…   (hex, 0/1, hex)
         → nomatch | <trace>   or   match <abs> <rel> file|directory | <trace>
 
@@ -124,7 +124,7 @@ def parseTries (s : String) : Option (List TryFile) :=
       let pre ← Hex.decode a
       let suf ← Hex.decode b
       let use ← (match u.toList with | [c] => parseBit c | _ => none)
-      pure ⟨pre, use, suf⟩
+      pure ⟨pre, use, suf, []⟩
     | _ => none
 
 /-- literal parts must not interfere with the placeholder syntax -/
@@ -245,6 +245,27 @@ def handleSite (cwd root hide index flags tries path tree cfname : String) : Str
       showOutcome r.1 ++ " | " ++ showList r.2
   | _, _, _, _, _, _, _, _, _ => "bad-op"
 
+/-- `matchfile <cwd> <root> <tries> <policy> <path> <tree> [<split_path>]`: policy `0` first_exist,
+    `1` first_exist_fallback, `L` largest_size, `S` smallest_size, `M` most_recently_modified;
+    split_path entries are non-empty ASCII -/
+def handleMatch (cwd root tries pol path tree splits : String) : String :=
+  match Hex.decode cwd, Hex.decode root, parseTries tries, Hex.decode path, parseTree tree, parseList splits with
+  | some cwd, some root, some tries, some path, some tree, some splits =>
+    if !isRooted cwd || pathClean cwd ≠ cwd || !validTree tree || !tries.all validTry
+        || !splits.all (fun s => !s.isEmpty && s.all (· < 128)) then "bad-op"
+    else
+      let tries := tries.map fun t => { t with splits := splits }
+      let r := if pol == "0" then some (matchFile (treeFS cwd tree) root tries false path)
+        else if pol == "1" then some (matchFile (treeFS cwd tree) root tries true path)
+        else if pol == "L" then some (matchFileScan (treeFS cwd tree) root tries .largest path)
+        else if pol == "S" then some (matchFileScan (treeFS cwd tree) root tries .smallest path)
+        else if pol == "M" then some (matchFileScan (treeFS cwd tree) root tries .recent path)
+        else none
+      match r with
+      | some r => showMatch r.1 ++ " | " ++ showList r.2
+      | none => "bad-op"
+  | _, _, _, _, _, _ => "bad-op"
+
 def handle : List String → String
   | ["clean", p] =>
     match Hex.decode p with
@@ -278,14 +299,8 @@ def handle : List String → String
     | some (a, b) =>
       if handleServeFields a = "bad-op" then "bad-op" else handleServeFields b
     | none => "bad-op"
-  | ["matchfile", cwd, root, tries, fb, path, tree] =>
-    match Hex.decode cwd, Hex.decode root, parseTries tries, fb.toList.mapM parseBit, Hex.decode path, parseTree tree with
-    | some cwd, some root, some tries, some [fb], some path, some tree =>
-      if !isRooted cwd || pathClean cwd ≠ cwd || !validTree tree || !tries.all validTry then "bad-op"
-      else
-        let r := matchFile (treeFS cwd tree) root tries fb path
-        showMatch r.1 ++ " | " ++ showList r.2
-    | _, _, _, _, _, _ => "bad-op"
+  | ["matchfile", cwd, root, tries, pol, path, tree] => handleMatch cwd root tries pol path tree "."
+  | ["matchfile", cwd, root, tries, pol, path, tree, splits] => handleMatch cwd root tries pol path tree splits
   | _ => "bad-op"
 
 end CaddyModel.C07
